@@ -70,11 +70,15 @@ pub fn scenario(ctx: &mut Ctx) -> ScResult {
         let l = *ctx.ch.pick(lens) + 65_536;
         if l <= 70_000 {
             let value = ctx.ch.bytes(l);
-            let raw = RawAttribute::new(AttributeType::new(ty), &value);
-            ctx.st.inc("probe.raw_attribute_value_longer_than_64KiB");
-            if let Err(v) = crate::pipeline::typed_decoders(&raw, 1u128.into()) {
-                ev!(ctx, "  !! {} [{}]: {}", v.clause, v.site, v.message);
-                return Err(v);
+            // the constructor is not a decoding entry point: if the library refuses (or panics on) a
+            // value that has no wire representation, there is nothing to decode and nothing to report
+            let made = crate::core::guard(|| RawAttribute::new(AttributeType::new(ty), &value));
+            if let crate::core::Guarded::Ok(raw) = made {
+                ctx.st.inc("probe.raw_attribute_value_longer_than_64KiB");
+                if let Err(v) = crate::pipeline::typed_decoders(&raw, 1u128.into()) {
+                    ev!(ctx, "  !! {} [{}]: {}", v.clause, v.site, v.message);
+                    return Err(v);
+                }
             }
         }
     }
